@@ -1,2 +1,12 @@
+"""C06 stage "prims": the primitive shapes as SDF / PointSDF / NormalSDF, queried at quarter-lattice points including
+the exact centre, axis points, apex, torus ring points and surface points; judged by spec/geom/PrimJudge.tla
+(exact distances for spheres / circles / boxes, tolerance laws decided in the harness for the others)."""
+import solids
+
+CLAUSES = {"panic", "sign", "agree", "point", "normal", "exact"}
+
+
 def run(ctx):
-    pass
+    quick = ctx.tier == "quick"
+    solids.judge_stage(ctx, "prims", ["c06-prims", "n=%d" % (6 if quick else 40), "q=%d" % (60 if quick else 120)], CLAUSES,
+                       judge="geom/PrimJudge", keyfn=lambda rec, clause: "%s:%s" % (rec["site"], clause))
